@@ -35,7 +35,7 @@ def make_cases(run):
         ls = [l.rstrip("\n").replace("{REPO}", C.REPO) for l in open(os.path.join(cdir, n)) if l.strip() and not l.startswith("#")]
         cases.append(("corpus:" + n, ls, "corpus"))
     two = "src synthetic pack:2 [numa(memory=1024)] core:2 pu:2"
-    full = ["pre subtype 0 0 rootst", "pre distadd 1004 4 5 0 1", "pre mseto 2 0 1001 0 300", "pre mreg foo 1", "pre mset 8 1 - 7", "pre kobj 1003 0 1 k a", "pre info 0 0 a b", "pre tinfo c d"]
+    full = ["pre mseti 5 0 1001 1 40", "pre subtype 0 0 rootst", "pre distadd 1004 4 5 0 1", "pre mseto 2 0 1001 0 300", "pre mreg foo 1", "pre mset 8 1 - 7", "pre kobj 1003 0 1 k a", "pre info 0 0 a b", "pre tinfo c d"]
     for k in range(0, 5):       # all page-aligned offsets of a small range
         cases.append(("b:offset%d" % k, ["flags 1", two] + full + ["shmem %d" % k], "boundary"))
     for k in (524287, 524288, 1048575, 1048576, 1572864):      # around 2 GiB and 4 GiB (sparse file): off_t, not int
@@ -43,6 +43,9 @@ def make_cases(run):
     cases.append(("b:no-include-disallowed", [two] + full + ["shmem 1"], "boundary"))
     cases.append(("b:stale-caches", ["flags 1", two] + full + ["pre robj 1001 0 0", "shmem 0"], "boundary"))
     cases.append(("b:plain-pu1", ["src synthetic pu:1", "shmem 0"], "boundary"))
+    # XML carrying a <support> element for every support field, loaded with IMPORT_SUPPORT (not this system)
+    cases.append(("b:imported-support", ["flags 9", "src synthsupport pack:2 [numa(memory=1024)] core:2 pu:2", "pre mseti 2 0 1001 0 300", "pre distadd 1004 4 5 0 1", "shmem 1"], "boundary"))
+    cases.append(("b:imported-support-republish", ["flags 8", "src synthsupport pu:4", "republish 0 3"], "republish"))
     # previous content of the target region / republishing at the same offset and address
     for k, seed in ((0, 2), (1, 7), (3, 12)):
         cases.append(("b:republish%d" % k, ["flags 1", two] + full + ["republish %d %d" % (k, seed)], "republish"))
